@@ -5,6 +5,7 @@ import (
 	"go/ast"
 	"go/parser"
 	"go/token"
+	"golang.org/x/tools/go/ssa"
 	"os"
 	"path/filepath"
 	"sort"
@@ -28,7 +29,8 @@ type SiteAssert struct {
 	Text  string
 	Expr  ast.Expr
 	Hits  int
-	Mark  bool // mark[name]: not an obligation; Label is the mark's name
+	Mark  bool            // mark[name]: not an obligation; Label is the mark's name
+	alt   ssa.Instruction // re-attachment when the quoted text matches nothing (resolveSites)
 }
 
 type Contract struct {
